@@ -92,6 +92,9 @@ func genJoin(engine, prop string, r *simrt.SplitMix) *JoinSc {
 	sc := &JoinSc{Engine: engine, Class: "normal"}
 
 	sc.JoinSize = pick(r, 1, 2, 3, 3, 4, 5, 8)
+	if scale > 1 && r.Intn(4) == 0 {
+		sc.JoinSize = pick(r, 13, 16, 31)
+	}
 	sc.NoCopy = r.Intn(2) == 0
 	sc.Inacc = uint(pick(r, 0, 1, 5, 10, 25, 25, 33, 50, 51, 100))
 
@@ -134,7 +137,7 @@ func genJoin(engine, prop string, r *simrt.SplitMix) *JoinSc {
 	}
 
 	// producer
-	n := between(r, 0, 6*sc.JoinSize+3) // total elements (join) / total slices (unite)
+	n := between(r, 0, (6*sc.JoinSize+3)*scale) // total elements (join) / total slices (unite)
 	if r.Intn(10) == 0 {
 		n = 0
 	}
@@ -153,7 +156,7 @@ func genJoin(engine, prop string, r *simrt.SplitMix) *JoinSc {
 	delays := []int64{0, 0, 0, 1, unit / 4, unit / 2, unit - 1, unit, unit + 1, unit + iv, unit + iv + 1, 2 * unit, 3*unit + iv/2, iv, 2 * iv, unit - iv}
 
 	// the number of ticker wake-ups is what a run costs: bound the total pause
-	budget := 1200 * iv
+	budget := 1200 * iv * int64(scale)
 
 	pattern := r.Intn(4) // 0 bursts, 1 trickle, 2 one then silence, 3 random
 
@@ -231,7 +234,9 @@ func genJoin(engine, prop string, r *simrt.SplitMix) *JoinSc {
 			sc.StallFor = 1200 * iv
 		}
 
-		sc.Scribble = !sc.NoCopy && r.Intn(2) == 0
+		// the consumer owns a delivered slice (copy mode: for good; no-copy: until it
+		// releases it) and may write into it
+		sc.Scribble = r.Intn(2) == 0
 	}
 
 	if sc.Class == "stop" {
@@ -257,7 +262,6 @@ func genJoin(engine, prop string, r *simrt.SplitMix) *JoinSc {
 		case 0:
 			st.NeverRel = true
 			sc.NoCopy = true
-			sc.Scribble = false
 		case 1:
 			st.StopReader = true
 			if sc.StallAt == 0 {
@@ -536,6 +540,14 @@ func joinConsumer(sc *JoinSc, h joinHandle, ctlDone <-chan struct{}) {
 		}
 
 		// no-copy: the slice is ours until we signal the release
+		if sc.Scribble {
+			for i := range sl {
+				sl[i] = -(k*1000 + i)
+			}
+
+			simrt.NoteSlice("scribbled", int64(k), sl)
+		}
+
 		if sc.Stop != nil && sc.Stop.NeverRel {
 			keep = append(keep, kept{k, sl})
 			simrt.Note("release-withheld", int64(k), 0)
@@ -872,11 +884,21 @@ func checkJoinOwnership(v *Verdict, sc *JoinSc, jv joinView, res *simrt.Result) 
 		return
 	}
 
-	// no-copy: unchanged from delivery until the release is signalled ...
+	// no-copy: the slice holds what the consumer last saw or wrote, from delivery until the
+	// release is signalled ...
+	expect := map[int64][]int{}
+	for _, g := range jv.gots {
+		expect[g.Val] = g.Slice
+	}
+
+	for _, sn := range h.notes("scribbled") {
+		expect[sn.Val] = sn.Slice
+	}
+
 	for _, br := range h.notes("before-release") {
 		g := delivered[br.Val]
-		if !equalInts(g.Slice, br.Slice) {
-			v.fail("unreleased-slice-modified", "no-copy: slice #%d was %v at delivery and %v just before the consumer released it", br.Val, g.Slice, br.Slice)
+		if !equalInts(expect[br.Val], br.Slice) {
+			v.fail("unreleased-slice-modified", "no-copy: slice #%d held %v while the consumer owned it and reads %v just before the consumer released it", br.Val, expect[br.Val], br.Slice)
 			return
 		}
 
@@ -901,9 +923,8 @@ func checkJoinOwnership(v *Verdict, sc *JoinSc, jv joinView, res *simrt.Result) 
 
 	// v1: stopped or cancelled before the release signal -> never touched again
 	for _, f := range h.notes("final") {
-		g := delivered[f.Val]
-		if !equalInts(g.Slice, f.Slice) {
-			v.fail("unreleased-slice-modified-after-stop", "no-copy: slice #%d (%v at delivery) was never released, the discipline was stopped, and it later reads %v", f.Val, g.Slice, f.Slice)
+		if !equalInts(expect[f.Val], f.Slice) {
+			v.fail("unreleased-slice-modified-after-stop", "no-copy: slice #%d (%v while the consumer owned it) was never released, the discipline was stopped, and it later reads %v", f.Val, expect[f.Val], f.Slice)
 			return
 		}
 
